@@ -1,4 +1,389 @@
+// C15: call histories.  The worker that serves "history" requests is a zygote: it has never parsed anything
+// itself.  For every history it forks a child; the child seeds UTAP::tracker, performs the calls of the history
+// in order on the real library and reports, per call, the canonical observable result (return value or
+// exception class, diagnostics as the library renders them, document dump, supported methods) and the
+// process-global lexer/parser/tracker state left behind.  The Python driver compares every result with the
+// result of the same call made first in a fresh child and uses the global-state digests to merge histories.
 #include "worker.h"
+
+#include "libparser.h"
+#include "utap/DocumentBuilder.hpp"
+#include "utap/featurechecker.h"
+#include "utap/prettyprinter.h"
+#include "utap/property.h"
+#include "utap/typechecker.h"
+
+#include <sys/mman.h>
+#include <sys/wait.h>
+#include <unistd.h>
+
+#include <cerrno>
+#include <cstring>
+#include <sstream>
+
+using namespace UTAP;
+
+void utapv_globals(std::string& out);  // wrap_parser.cpp
+
 namespace utapv {
-json op_history(const json&) { return json{{"harness_error", "history not built"}}; }
+
+static uint64_t fnv(const std::string& s)
+{
+    uint64_t h = 1469598103934665603ULL;
+    for (unsigned char c : s) {
+        h ^= c;
+        h *= 1099511628211ULL;
+    }
+    return h;
 }
+
+static std::string hex(uint64_t v)
+{
+    char b[20];
+    snprintf(b, sizeof b, "%016llx", (unsigned long long)v);
+    return b;
+}
+
+// A client-side builder (ParserBuilder is a public interface): behaves like DocumentBuilder but aborts the
+// parse with a non-TypeException from inside the grammar / from inside a comment.
+struct ThrowingBuilder : DocumentBuilder
+{
+    using DocumentBuilder::DocumentBuilder;
+    void handle_expect(const char* text) override
+    {
+        if (text != nullptr && strncmp(text, "throw", 5) == 0)
+            throw std::runtime_error("client builder: expect");
+    }
+    void expr_nat(int32_t v) override
+    {
+        if (v == 666)
+            throw std::runtime_error("client builder: 666");
+        DocumentBuilder::expr_nat(v);
+    }
+};
+
+static json errs_as_library_renders(const std::vector<UTAP::error_t>& errs)
+{
+    json a = json::array();
+    for (auto& e : errs) {
+        json j;
+        j["msg"] = e.msg;
+        j["path"] = e.start.path ? *e.start.path : std::string();
+        j["line"] = e.start.line;
+        j["eline"] = e.end.line;
+        // the library's own column arithmetic (uint32_t)
+        j["sc"] = (uint32_t)(e.position.start - e.start.position);
+        j["ec"] = (uint32_t)(e.position.end - e.end.position);
+        j["str"] = e.str();
+        a.push_back(j);
+    }
+    return a;
+}
+
+static void observe(Document& doc, json& out, bool dump)
+{
+    out["errors"] = errs_as_library_renders(doc.get_errors());
+    out["warnings"] = errs_as_library_renders(doc.get_warnings());
+    auto& m = doc.get_supported_methods();
+    out["methods"] = {m.symbolic, m.stochastic, m.concrete};
+    if (dump) {
+        SexprOpts so;
+        out["dump"] = docdump(doc, so);
+    }
+}
+
+static json run_event(const json& ev)
+{
+    json out;
+    std::string kind = ev.value("kind", "");
+    bool newxta = ev.value("newxta", true);
+    auto doc = std::make_unique<Document>();
+    if (kind == "xml") {
+        std::string buf = ev["buf"];
+        std::string via = ev.value("via", "buffer");
+        int ret = -99;
+        guarded(out, [&] {
+            if (via == "buffer")
+                ret = parse_XML_buffer(buf.c_str(), doc.get(), newxta);
+            else {
+                int fd = memfd_create("utapv-in", 0);
+                if (write(fd, buf.data(), buf.size()) != (ssize_t)buf.size())
+                    throw std::runtime_error("harness: memfd write");
+                lseek(fd, 0, SEEK_SET);
+                if (via == "fd")
+                    ret = parse_XML_fd(fd, doc.get(), newxta);
+                else {
+                    std::string p = "/proc/self/fd/" + std::to_string(fd);
+                    ret = parse_XML_file(p.c_str(), doc.get(), newxta);
+                }
+                close(fd);
+            }
+        });
+        out["ret"] = ret;
+        observe(*doc, out, true);
+        // queries of the document, parsed the way a client does it
+        if (ev.value("queries", false) && out["exc"].is_null()) {
+            json qs = json::array();
+            for (auto& q : doc->get_queries()) {
+                json qj;
+                guarded(qj, [&] {
+                    TigaPropertyBuilder pb(*doc);
+                    qj["ret"] = parseProperty(q.formula.c_str(), &pb);
+                    json props = json::array();
+                    for (auto& p : pb.getProperties())
+                        props.push_back({(int)p.type, sexpr(p.intermediate, {})});
+                    qj["props"] = props;
+                });
+                qs.push_back(qj);
+            }
+            out["queries"] = qs;
+            out["errors_after_queries"] = errs_as_library_renders(doc->get_errors());
+        }
+    } else if (kind == "xta") {
+        std::string buf = ev["buf"];
+        int ret = -99;
+        guarded(out, [&] { ret = parse_XTA(buf.c_str(), doc.get(), newxta) ? 1 : 0; });
+        out["ret"] = ret;
+        observe(*doc, out, true);
+    } else if (kind == "xtafile" || kind == "xtafile_throwing") {
+        // whole XTA document from a FILE* (flex reads it through yyin with its own buffer)
+        std::string buf = ev["buf"];
+        int ret = -99;
+        FILE* f = fmemopen((void*)buf.data(), buf.size(), "r");
+        guarded(out, [&] {
+            if (kind == "xtafile")
+                ret = parse_XTA(f, doc.get(), newxta) ? 1 : 0;
+            else {
+                ThrowingBuilder tb(*doc);
+                ret = parse_XTA(f, &tb, newxta);
+            }
+        });
+        if (f)
+            fclose(f);
+        out["ret"] = ret;
+        observe(*doc, out, true);
+    } else if (kind == "queryfile") {
+        std::string ctx = ev.value("ctx", "");
+        std::string text = ev["text"];
+        FILE* f = fmemopen((void*)text.data(), text.size(), "r");
+        guarded(out, [&] {
+            if (!ctx.empty())
+                out["ctxret"] = parse_XML_buffer(ctx.c_str(), doc.get(), newxta);
+            TigaPropertyBuilder pb(*doc);
+            out["ret"] = parseProperty(f, &pb);
+            json props = json::array();
+            for (auto& p : pb.getProperties())
+                props.push_back({(int)p.type, sexpr(p.intermediate, {})});
+            out["props"] = props;
+        });
+        if (f)
+            fclose(f);
+        observe(*doc, out, false);
+    } else if (kind == "query") {
+        // context declarations + one query text through TigaPropertyBuilder
+        std::string ctx = ev.value("ctx", "");
+        std::string text = ev["text"];
+        guarded(out, [&] {
+            if (!ctx.empty())
+                out["ctxret"] = parse_XML_buffer(ctx.c_str(), doc.get(), newxta);
+            TigaPropertyBuilder pb(*doc);
+            out["ret"] = parseProperty(text.c_str(), &pb);
+            json props = json::array();
+            for (auto& p : pb.getProperties())
+                props.push_back({(int)p.type, sexpr(p.intermediate, {})});
+            out["props"] = props;
+        });
+        observe(*doc, out, false);
+    } else if (kind == "block") {
+        std::string text = ev["text"];
+        int part = ev.value("part", (int)S_EXPRESSION);
+        std::string builder = ev.value("builder", "expr");
+        std::string xpath = ev.value("xpath", "");
+        guarded(out, [&] {
+            if (builder == "pretty") {
+                std::ostringstream os;
+                PrettyPrinter pp(os);
+                out["ret"] = parse_XTA(text.c_str(), &pp, newxta, (xta_part_t)part, xpath);
+                out["text"] = os.str();
+            } else if (builder == "throwing") {
+                ThrowingBuilder tb(*doc);
+                parse_XTA(utap_builtin_declarations(), &tb, true, S_DECLARATION, "");
+                out["ret"] = parse_XTA(text.c_str(), &tb, newxta, (xta_part_t)part, xpath);
+            } else if (builder == "doc") {
+                DocumentBuilder db(*doc);
+                parse_XTA(utap_builtin_declarations(), &db, true, S_DECLARATION, "");
+                out["ret"] = parse_XTA(text.c_str(), &db, newxta, (xta_part_t)part, xpath);
+            } else {
+                ExpressionBuilder eb(*doc);
+                out["ret"] = parse_XTA(text.c_str(), &eb, newxta, (xta_part_t)part, xpath);
+                json fr = json::array();
+                for (size_t i = 0; i < eb.getExpressions().size(); ++i)
+                    fr.push_back(sexpr(eb.getExpressions()[i], {}));
+                out["frags"] = fr;
+            }
+        });
+        observe(*doc, out, builder == "doc" || builder == "throwing");
+    } else if (kind == "xmlthrowing") {
+        // whole XML document through the client builder
+        std::string buf = ev["buf"];
+        int ret = -99;
+        guarded(out, [&] {
+            ThrowingBuilder tb(*doc);
+            ret = parse_XML_buffer(buf.c_str(), &tb, newxta);
+        });
+        out["ret"] = ret;
+        observe(*doc, out, true);
+    } else {
+        out["harness_error"] = "unknown event kind " + kind;
+    }
+    return out;
+}
+
+static std::string global_state()
+{
+    int e = errno;
+    std::string g;
+    utapv_globals(g);
+    g += " line=" + std::to_string(tracker.line) + " offset=" + std::to_string(tracker.offset) +
+         " position=" + std::to_string(tracker.position) + " path=" + (tracker.path ? *tracker.path : std::string("<null>"));
+    g += " errno=" + std::to_string(e);
+    return g;
+}
+
+// the exception *class* is the observable; the message (which may quote errno text) travels beside the record
+static void take_what(json& r, json& line)
+{
+    if (r.contains("what")) {
+        line["what"] = r["what"];
+        r.erase("what");
+    }
+}
+
+static void write_all(int fd, const std::string& l)
+{
+    size_t off = 0;
+    while (off < l.size()) {
+        ssize_t w = write(fd, l.data() + off, l.size() - off);
+        if (w <= 0)
+            _exit(3);
+        off += w;
+    }
+}
+
+// req: {events:[...], histories:[[i,...],...], seed_position:uint, full:bool}
+json op_history(const json& req)
+{
+    json out;
+    static bool checked = false;
+    if (!checked) {
+        std::string g0;
+        utapv_globals(g0);
+        out["zygote_globals"] = g0;
+        if (tracker.position != 0)
+            return json{{"harness_error", "history zygote has parsed before"}};
+        checked = true;
+    }
+    const json& events = req["events"];
+    uint32_t seed = req.value("seed_position", (uint64_t)0);
+    bool full = req.value("full", false);
+    bool fan = req.value("fan", false);
+    double limit_s = req.value("child_timeout", 20.0);
+    json res = json::array();
+    for (auto& h : req["histories"]) {
+        int fds[2];
+        if (pipe(fds) != 0)
+            return json{{"harness_error", "pipe"}};
+        fflush(stdout);
+        fflush(stderr);
+        pid_t pid = fork();
+        if (pid < 0)
+            return json{{"harness_error", "fork"}};
+        if (pid == 0) {
+            close(fds[0]);
+            alarm((unsigned)limit_s + 1);
+            tracker.position = seed;
+            for (auto& idx : h) {
+                json line;
+                json r = run_event(events.at(idx.get<size_t>()));
+                take_what(r, line);
+                std::string s = r.dump(-1, ' ', false, json::error_handler_t::replace);
+                line["h"] = hex(fnv(s));
+                line["g"] = global_state();
+                if (r.contains("harness_error"))
+                    line["harness_error"] = r["harness_error"];
+                if (full)
+                    line["r"] = r;
+                write_all(fds[1], line.dump(-1, ' ', false, json::error_handler_t::replace) + "\n");
+            }
+            if (fan) {
+                // fan-out: every event once as the next call, each in its own grandchild forked from this state
+                for (size_t e = 0; e < events.size(); ++e) {
+                    pid_t gp = fork();
+                    if (gp < 0)
+                        _exit(4);
+                    if (gp == 0) {
+                        alarm((unsigned)limit_s + 1);
+                        json line;
+                        json r = run_event(events.at(e));
+                        take_what(r, line);
+                        std::string s = r.dump(-1, ' ', false, json::error_handler_t::replace);
+                        line["e"] = e;
+                        line["h"] = hex(fnv(s));
+                        line["g"] = global_state();
+                        write_all(fds[1], line.dump(-1, ' ', false, json::error_handler_t::replace) + "\n");
+                        _exit(0);
+                    }
+                    int gst = 0;
+                    waitpid(gp, &gst, 0);
+                    if (!(WIFEXITED(gst) && WEXITSTATUS(gst) == 0)) {
+                        json line;
+                        line["e"] = e;
+                        line["sig"] = WIFSIGNALED(gst) ? WTERMSIG(gst) : -WEXITSTATUS(gst);
+                        write_all(fds[1], line.dump() + "\n");
+                    }
+                }
+            }
+            _exit(0);
+        }
+        close(fds[1]);
+        std::string data;
+        char buf[65536];
+        ssize_t n;
+        while ((n = read(fds[0], buf, sizeof buf)) > 0)
+            data.append(buf, n);
+        close(fds[0]);
+        int st = 0;
+        waitpid(pid, &st, 0);
+        json hr;
+        json calls = json::array();
+        json fans = json::array();
+        size_t pos = 0, p;
+        while ((p = data.find('\n', pos)) != std::string::npos) {
+            try {
+                json ln = json::parse(data.substr(pos, p - pos));
+                if (ln.contains("e"))
+                    fans.push_back(ln);
+                else
+                    calls.push_back(ln);
+            } catch (const std::exception&) {
+                break;
+            }
+            pos = p + 1;
+        }
+        hr["calls"] = calls;
+        if (fan)
+            hr["fan"] = fans;
+        if (WIFSIGNALED(st))
+            hr["sig"] = WTERMSIG(st);
+        else if (WIFEXITED(st) && WEXITSTATUS(st) != 0)
+            hr["exit"] = WEXITSTATUS(st);
+        std::string se = take_stderr();
+        if (!se.empty())
+            hr["stderr"] = se;
+        res.push_back(hr);
+    }
+    out["results"] = res;
+    return out;
+}
+
+}  // namespace utapv
